@@ -246,6 +246,79 @@ class Body:
         d = self.dominators()
         return b in d and a in d[b]
 
+    def loops(self):
+        """natural loops: [(header, frozenset(nodes))] (back edge u->h with h dominating u; loops sharing a header are merged)"""
+        lp = self.__dict__.get("_loops")
+        if lp is not None:
+            return lp
+        pred = self.pred()
+        by_head = {}
+        for (u, h, _l) in self.edges():
+            if u in self.reach() and h in self.reach() and self.dominates(h, u):
+                nodes = by_head.setdefault(h, {h})
+                stack = [u]
+                while stack:
+                    x = stack.pop()
+                    if x in nodes:
+                        continue
+                    nodes.add(x)
+                    stack.extend(p for p in pred[x] if p in self.reach())
+        lp = [(h, frozenset(ns)) for h, ns in sorted(by_head.items())]
+        self.__dict__["_loops"] = lp
+        return lp
+
+    def only_panics_from(self, bb, _depth=0, _seen=None):
+        """every path from bb ends in a panic sink (no return, no way back)"""
+        if _seen is None:
+            _seen = set()
+        if bb in _seen:
+            return True
+        _seen.add(bb)
+        if self.is_panic_block(bb):
+            return True
+        t = self.blocks[bb]["term"]
+        if t["k"] == "return" or _depth > 40:
+            return False
+        ss = self.succ()[bb]
+        return bool(ss) and all(self.only_panics_from(x, _depth + 1, _seen) for x in ss)
+
+    def loop_exits(self, header, nodes):
+        """[(from_bb, to_bb, kind)] for the edges leaving the loop; kind: 'exhausted' (the None arm of the switch on the iterator's
+        next() / the false arm of a `while` header condition), 'panic' (leads only into a panic), 'early' (break / return / ?)"""
+        out = []
+        for (a, b, l) in self.edges():
+            if a in nodes and b not in nodes and a in self.reach():
+                if self.only_panics_from(b):
+                    out.append((a, b, "panic"))
+                    continue
+                kind = "early"
+                t = self.blocks[a]["term"]
+                if t["k"] == "switch":
+                    dt = self.operand_term(t["d"])
+                    # the call whose result is tested (through discriminant / field / cast wrappers only)
+                    x = dt
+                    while isinstance(x, tuple) and x and x[0] in ("discr", "field", "variant", "cast", "un", "ref", "deref") and len(x) > 1:
+                        x = x[2] if x[0] in ("cast", "un") else x[1]
+                    names = [x[1].rsplit("::", 1)[-1]] if isinstance(x, tuple) and x and x[0] == "call" else []
+                    if "poll" in names or "poll_next" in names:
+                        kind = "await"          # the loop an `.await` expands to: left when the future is ready
+                    elif "next" in names or "next_back" in names or "recv" in names or "pop_first" in names or "pop" in names or "pop_front" in names:
+                        kind = "exhausted"
+                    else:
+                        # `while cond {..}`: the first test after the header (straight-line code only in between)
+                        x = header
+                        for _ in range(12):
+                            if x == a:
+                                kind = "exhausted"
+                                break
+                            tx = self.blocks[x]["term"]
+                            ss = [y for y in self.succ()[x] if y in nodes]
+                            if tx["k"] == "switch" or len(ss) != 1:
+                                break
+                            x = ss[0]
+                out.append((a, b, kind))
+        return out
+
     def is_panic_block(self, i):
         """block ends in a diverging call / unreachable (panic sink)"""
         t = self.blocks[i]["term"]
